@@ -28,10 +28,13 @@ ASSUMPTIONS = ['faults are injected by shadowing open() in python_minifier.__mai
 
 SHRINK = b"def long_function_name():\n    return None\n\n\nprint(long_function_name())\n"
 GROW = b"1if 1else 1"
+# a module in a declared non-UTF-8 encoding with non-ASCII constants: the complete minified module is its UTF-8 form without the cookie
+LATIN1 = b"# -*- coding: latin-1 -*-\ndef long_function_name():\n    return '\xe9\xe8 \xfc'\n\n\nprint(long_function_name())\n"
 KINDS = [
     ('shrink.py', SHRINK), ('grow.py', GROW), ('empty.py', b''), ('win.pyw', SHRINK), ('syntaxerr.py', b'def (:\n'), ('undecodable.py', b'\xff\xfe\x00bad = 1\n'),
     ('unreadable.py', SHRINK), ('readonly.py', SHRINK), ('notes.txt', SHRINK), ('backup.py.bak', SHRINK), ('nosuffix', SHRINK),
     ('stub.pyi', SHRINK), ('cython.pyx', SHRINK), ('UPPER.PY', SHRINK), ('py', SHRINK),
+    ('latin1.py', LATIN1),
     ('subdir', 'DIR'), ('link.py', 'LINK-FILE'), ('linkdir', 'LINK-DIR'), ('loop', 'LINK-LOOP'), ('dangling.py', 'LINK-DANGLING'),
 ]
 OUTSIDE = 'outside'      # sibling directory holding link targets; never passed as an argument
